@@ -1,6 +1,9 @@
 #!/bin/sh
-# Applies every X03 mutant to a scratch worktree of /repo (with the proposed X03 fixes applied
-# first where /repo does not contain them yet) and expects ./check X03 to report VIOLATIONs.
+# Applies every X03 mutant (selftest/X03/*.patch, not the *.onfix.patch variants) to a scratch
+# worktree of /repo's HEAD - the UNCHANGED tree, on which ./check X03 exits 0 with the three known
+# findings X03-F1..F3 - and expects ./check X03 to print VIOLATION lines (violations that are NOT
+# known findings).  `ONFIX=1 sh selftest/X03/run_mutants.sh` applies proposed_fixes/X03_*.patch first
+# (the repaired tree, no known finding left) and prefers <name>.onfix.patch where one exists.
 # usage: sh selftest/X03/run_mutants.sh [mutant-name ...]
 HERE="$(cd "$(dirname "$0")/../.." && pwd)"
 WT=$(mktemp -d /tmp/wt_X03_mut.XXXXXX)
@@ -8,16 +11,19 @@ OUTD=$(mktemp -d /tmp/x03_mut_out.XXXXXX)
 rmdir "$WT"
 git -C /repo worktree add --detach "$WT" HEAD >/dev/null 2>&1 || exit 2
 trap 'git -C /repo worktree remove --force "$WT" >/dev/null 2>&1; rm -rf "$OUTD"' EXIT
-for FIX in "$HERE"/proposed_fixes/X03_*.patch; do
-  if git -C "$WT" apply --check "$FIX" 2>/dev/null; then git -C "$WT" apply "$FIX"; echo "applied $(basename "$FIX")"; fi
-done
-BASE=$(cd "$HERE" && VERIF_OUT="$OUTD" VERIF_REPO="$WT" ./check X03 --tier quick 2>&1 | tail -1)
-echo "UNMUTATED: $BASE"
+if [ "${ONFIX:-0}" = 1 ]; then
+  for FIX in "$HERE"/proposed_fixes/X03_*.patch; do
+    if git -C "$WT" apply --check "$FIX" 2>/dev/null; then git -C "$WT" apply "$FIX"; echo "applied $(basename "$FIX")"; fi
+  done
+fi
+BASE=$(cd "$HERE" && VERIF_OUT="$OUTD" VERIF_REPO="$WT" ./check X03 --tier quick 2>&1)
+echo "UNMUTATED: $(echo "$BASE" | grep -c '^VIOLATION') VIOLATION lines, $(echo "$BASE" | grep -c '^KNOWN-FINDING') KNOWN-FINDING lines :: $(echo "$BASE" | tail -1)"
 NAMES="$*"
-[ -z "$NAMES" ] && NAMES=$(ls "$HERE"/selftest/X03/*.patch | xargs -n1 basename | sed 's/\.patch$//' | sort -u)
+[ -z "$NAMES" ] && NAMES=$(ls "$HERE"/selftest/X03/*.patch | xargs -n1 basename | sed 's/\.onfix\.patch$//; s/\.patch$//' | sort -u)
 RC=0
 for n in $NAMES; do
   P="$HERE/selftest/X03/$n.patch"
+  [ "${ONFIX:-0}" = 1 ] && [ -f "$HERE/selftest/X03/$n.onfix.patch" ] && P="$HERE/selftest/X03/$n.onfix.patch"
   git -C "$WT" apply "$P" || { echo "MUTANT $n: patch does not apply"; RC=2; continue; }
   OUT=$(cd "$HERE" && VERIF_OUT="$OUTD" VERIF_REPO="$WT" ./check X03 --tier quick 2>&1)
   CL=$(echo "$OUT" | grep 'violated clause' | awk '{print $3}' | sort -u | tr '\n' ' ')
